@@ -1041,6 +1041,57 @@ Section Corollaries.
   (* without entity categories in force there is no input assumption at all *)
   Lemma no_ec_holds x : the_entries ectab (flat x) = [] -> spec rmatch ectab (flat x) (run rmatch ectab x).
   Proof. intros He. apply run_spec. unfold guard, wf. rewrite He. reflexivity. Qed.
+
+  (* ---- the life of one Policy object: every call of every life satisfies the property against the
+     requester as described at the time of that call; what a call releases does not depend on the
+     calls made before or after it on the same object *)
+  Lemma run_life_app p l1 l2 :
+    run_life rmatch ectab p (l1 ++ l2) = run_life rmatch ectab p l1 ++ run_life rmatch ectab p l2.
+  Proof. unfold run_life. apply map_app. Qed.
+
+  Lemma life_spec p l : guard_life ectab p l = true ->
+    spec_life rmatch ectab p l (run_life rmatch ectab p l).
+  Proof.
+    unfold guard_life, spec_life, run_life. induction l as [|s l IH]; cbn [forallb map]; intros Hg.
+    - constructor.
+    - apply andb_true_iff in Hg. destruct Hg as [Hs Hl]. constructor.
+      + apply run_spec. exact Hs.
+      + apply IH. exact Hl.
+  Qed.
+
+  Lemma life_history_independent p pre s post :
+    nth_error (run_life rmatch ectab p (pre ++ s :: post)) (length pre)
+    = Some (run rmatch ectab (step_input p s)).
+  Proof.
+    rewrite run_life_app. rewrite nth_error_app2; unfold run_life; rewrite map_length; [|apply Nat.le_refl].
+    rewrite Nat.sub_diag. reflexivity.
+  Qed.
+
+  Lemma life_release_allowed p pre s post o r :
+    guard ectab (step_input p s) = true ->
+    nth_error (run_life rmatch ectab p (pre ++ s :: post)) (length pre) = Some o ->
+    o_out o = Ok r ->
+    subset (st_ident s) r /\ allowed rmatch ectab (flat (step_input p s)) r.
+  Proof.
+    intros Hg Hn Ho. rewrite life_history_independent in Hn. inversion Hn; subst o. split.
+    - apply (release_subset rmatch ectab (step_input p s) r Ho).
+    - apply (release_allowed (step_input p s) r Hg Ho).
+  Qed.
+
+  Lemma spec_life_b_iff p l os :
+    spec_life_b rmatch ectab p l os = true <-> spec_life rmatch ectab p l os.
+  Proof.
+    unfold spec_life_b, spec_life. revert os. induction l as [|s l IH]; intros [|o os]; cbn [length combine forallb Nat.eqb andb].
+    - split; [constructor|reflexivity].
+    - split; [discriminate|intros H; inversion H].
+    - split; [discriminate|intros H; inversion H].
+    - cbn [fst snd]. split.
+      + intros H. apply andb_true_iff in H. destruct H as [Hn H]. apply andb_true_iff in H. destruct H as [Hs Hr].
+        constructor; [apply spec_b_iff; exact Hs|]. apply IH. rewrite Hn. exact Hr.
+      + intros H. inversion H as [|? ? ? ? Hs Hr]; subst.
+        apply IH in Hr. apply andb_true_iff in Hr. destruct Hr as [Hn Hr].
+        rewrite Hn. cbn [andb]. apply andb_true_iff. split; [apply spec_b_iff; exact Hs|exact Hr].
+  Qed.
 End Corollaries.
 
 Definition URIf := "urn:oasis:names:tc:SAML:2.0:attrname-format:uri".
@@ -1165,3 +1216,47 @@ Proof. vm_compute. split; reflexivity. Qed.
 (* non-vacuity of missing_required_is_error at the Server: witness1 satisfies must_fail *)
 Example witness1_must_fail : must_fail [] (flat witness1).
 Proof. apply must_fail_b_iff. vm_compute. reflexivity. Qed.
+
+(* ---- the life of one Policy object: non-vacuity.  An ONLY_REQUIRED category (the shape of GEANT
+   CoCo): call 1 while the requester requires mail and sn, then the metadata is refreshed (the
+   requester requires only mail), call 2 on the SAME object; then the requester leaves the category. *)
+Definition w_tab_or : list (string * ecmap) :=
+  [("coco", [{| ec_key := KS "http://ec/coco"; ec_attrs := ["mail"; "sn"; "givenName"];
+               ec_only_required := true; ec_no_agg := false |}])].
+Definition w_sn : reqattr :=
+  {| ra_name := "urn:oid:2.5.4.4"; ra_nf := Some URIf; ra_friendly := Some "sn";
+     ra_values := []; ra_loc_l := Some "sn"; ra_loc_r := Some "sn" |}.
+Definition w_life_ident : ava := [("mail", VL ["a@example.org"]); ("sn", VL ["Jeter"]); ("givenName", VL ["Derek"])].
+Definition w_life_pol : policy :=
+  Some [("default", Some {| s_ar := None; s_fail := None; s_ecs := ["coco"]; s_bare := false |})].
+Definition w_life_md (ras : list (reqattr * option string)) (ecs : list string) : option mdinfo :=
+  Some {| md_ras := ras; md_sid := None; md_sid_loc := (None, None); md_ecs := ecs; md_ra := None |}.
+Definition w_life_step (md : option mdinfo) : step :=
+  {| st_ident := w_life_ident; st_sp := "https://sp.example.org/sp.xml"; st_md := md; st_entry := ERestrict None |}.
+Definition w_life : list step :=
+  [w_life_step (w_life_md [(w_mail, Some "true"); (w_sn, Some "true")] ["http://ec/coco"]);
+   w_life_step (w_life_md [(w_mail, Some "true"); (w_sn, Some "false")] ["http://ec/coco"]);
+   w_life_step (w_life_md [(w_mail, Some "true")] [])].
+
+Example w_life_releases :
+  guard_life w_tab_or w_life_pol w_life = true
+  /\ map (@o_out) (run_life no_rx w_tab_or w_life_pol w_life)
+     = [Ok [("mail", VL ["a@example.org"]); ("sn", VL ["Jeter"])]; Ok [("mail", VL ["a@example.org"])]; Ok []].
+Proof. vm_compute. split; reflexivity. Qed.
+
+(* a life whose later calls answer what the FIRST call was entitled to (restrictions kept per
+   requester on the object and never worked out again) fails the property: spec_life is not
+   satisfied by stale answers *)
+Definition stale_life (rmatch : string -> string -> bool) (ectab : list (string * ecmap)) (p : policy) (l : list step)
+  : list output :=
+  match l with
+  | [] => []
+  | s :: r => map (fun _ => run rmatch ectab (step_input p s)) l
+  end.
+
+Lemma stale_life_refuted : exists rmatch ectab p l,
+  guard_life ectab p l = true /\ ~ spec_life rmatch ectab p l (stale_life rmatch ectab p l).
+Proof.
+  exists no_rx, w_tab_or, w_life_pol, w_life. split; [vm_compute; reflexivity|].
+  intros H. apply spec_life_b_iff in H. vm_compute in H. discriminate.
+Qed.
